@@ -288,19 +288,61 @@ def gen_inputs(rng, n, k):
 # ---------------------------------------------------------------------------
 # runners
 # ---------------------------------------------------------------------------
+def _big_stack():
+    """the extracted interpreters recurse deeply on long runs: give the driver process an unlimited stack"""
+    import resource
+    try:
+        resource.setrlimit(resource.RLIMIT_STACK, (resource.RLIM_INFINITY, resource.RLIM_INFINITY))
+    except (ValueError, OSError):
+        try:
+            soft, hard = resource.getrlimit(resource.RLIMIT_STACK)
+            resource.setrlimit(resource.RLIMIT_STACK, (hard, hard))
+        except (ValueError, OSError):
+            pass
+
+
+def _run_model_chunk(exe, lines):
+    """one driver process per chunk; when the process dies (stack overflow of the extracted interpreter on a very deep evaluation)
+    the case it died on is answered {"big": true} (discarded and counted by the checks like an inexact case) and the rest is re-run"""
+    res = []
+    todo = list(lines)
+    while todo:
+        pr = subprocess.run([exe], input="\n".join(todo) + "\n", stdout=subprocess.PIPE, stderr=subprocess.PIPE, text=True, timeout=3000,
+                            preexec_fn=_big_stack)
+        out = [l for l in pr.stdout.split("\n") if l]
+        good = []
+        for l in out:
+            try:
+                good.append(json.loads(l))
+            except ValueError:
+                break
+        res += good
+        if len(good) >= len(todo):
+            break
+        if pr.returncode == 0 and len(good) < len(todo) and not pr.stderr:
+            raise RuntimeError(f"model driver answered {len(good)}/{len(todo)} lines without failing")
+        res.append({"big": True, "model_crash": (pr.stderr or "")[-200:]})
+        todo = todo[len(good) + 1:]
+    return res
+
+
 def run_model(exe, cases):
-    """cases: list of (prog, inputs_rows) -> list of dicts (parsed JSON of the driver)"""
+    """cases: list of (prog, inputs_rows) -> list of dicts (parsed JSON of the driver); sharded over the cores"""
+    from concurrent.futures import ThreadPoolExecutor
     lines = []
     for p, rows in cases:
         n = len(rows)
         k = len(p['inputs'])
         flat = " ".join(str(v) for r in rows for v in r)
         lines.append(f"{n} {k} {flat} | {prog_sx(p)}")
-    pr = subprocess.run([exe], input="\n".join(lines) + "\n", stdout=subprocess.PIPE, stderr=subprocess.PIPE, text=True, timeout=3000)
-    out = [l for l in pr.stdout.split("\n") if l]
-    if pr.returncode != 0 or len(out) != len(lines):
-        raise RuntimeError(f"model driver failed rc={pr.returncode} answered={len(out)}/{len(lines)} {pr.stderr[-500:]}")
-    return [json.loads(l) for l in out]
+    size = 400
+    chunks = [lines[i:i + size] for i in range(0, len(lines), size)]
+    with ThreadPoolExecutor(max_workers=max(1, min(len(chunks), (os.cpu_count() or 4)))) as ex:
+        parts = list(ex.map(lambda c: _run_model_chunk(exe, c), chunks))
+    out = [r for part in parts for r in part]
+    if len(out) != len(lines):
+        raise RuntimeError(f"model driver answered {len(out)}/{len(lines)} lines")
+    return out
 
 
 def _run_batch(exe, todo, timeout):
